@@ -120,12 +120,23 @@ def replay_case(case):
         if case["tag"] == "arrow_dictionary" and label.startswith("Categorical"):
             forms = [f for f in forms if f[0] == "narwhals-arrow"]
         for form, data, mat in forms:
-            for output in OUTPUTS:
+            # every output through the top-level function, then every output again through ONE materializer object (each call
+            # after the first comes after a call for another output type: what one call encoded is not what the next may hand out)
+            inst = None
+            for k, output in enumerate(OUTPUTS + ["sparse", "pandas", "numpy"]):
                 n += 1
                 base = {"values": case["vset"], "tag": case["tag"], "constructor": label, "dtype": str(series.dtype), "data": form, "output": output, "formula": case["formula"],
                         "nulls": case["nulls"], "full_rank": case["full_rank"]}
                 try:
-                    mm = model_matrix(case["formula"], data, output=output, ensure_full_rank=case["full_rank"], materializer=mat, context={})
+                    if k < len(OUTPUTS):
+                        mm = model_matrix(case["formula"], data, output=output, ensure_full_rank=case["full_rank"], materializer=mat, context={})
+                    else:
+                        base["entry"] = "one materializer object used for every output in turn"
+                        if inst is None:
+                            from formulaic.materializers import FormulaMaterializer
+
+                            inst = FormulaMaterializer.for_materializer(mat)(data, context={})
+                        mm = inst.get_model_matrix(case["formula"], output=output, ensure_full_rank=case["full_rank"])
                 except Exception as e:  # noqa
                     bad.append({**base, "why": "exception", "observed": type(e).__name__ + ": " + str(e)[:140]})
                     continue
